@@ -12,10 +12,6 @@ Section Iter.
   Context {F : Type} {O : Ops F}.
   Local Open Scope ops_scope.
 
-  (** utils.inverse_transform_point as written: np.dot(RT, p) - np.dot(RT, A2B[:3, 3]) *)
-  Definition inverse_transform_point' (T : Pose F) (p : V3 F) : V3 F :=
-    vsub (mulTV (rot T) p) (mulTV (rot T) (trans T)).
-
   (** ** point_to_ellipsoid; [eps] = 1e-16 is passed by the caller;
       returns (dist, closest point, number of Newton steps taken or 1000 for the inside arm) *)
   Definition ell_s (pqr r2p2 : V3 F) : F :=
@@ -45,7 +41,7 @@ Section Iter.
       else ell_newton fuel' eps radii2 r2p2 (t - s / ell_ds pqr r2p2) pqr (S k)
     end.
   Definition point_to_ellipsoid (p : V3 F) (T : Pose F) (radii : V3 F) (eps : F) : F * V3 F * nat :=
-    let q := inverse_transform_point' T p in
+    let q := inverse_transform_point_code T p in
     let radii2 := vmul radii radii in
     let point2 := vmul q q in
     let r2p2 := vmul radii2 point2 in
